@@ -96,8 +96,20 @@ def main():
         n += 1
         nsz.append({"kind": "nsz", "id": n, "M": M, "up": up, "down": down})
     scen += nsz
+    # many modes: Fock states wider than one machine word (the sign of an operator counts the occupied modes in front of it)
+    big = []
+    for M in ((65, 70, 130) if not thorough else (33, 64, 65, 70, 96, 130, 200)):
+        rows = []
+        for _ in range(60 if not thorough else 200):
+            occ = sorted(rng.sample(range(M), rng.randint(0, M - 1)))
+            nf = rng.randint(1, 3)
+            mono = [[rng.choice([0, 1]), rng.choice([0, 1, M // 2, M - 2, M - 1, rng.randrange(M)])] for _ in range(nf)]
+            rows.append([mono, occ])
+        n += 1
+        big.append({"kind": "bigfock", "id": n, "M": M, "rows": rows})
+    scen += big
     recs, crashed = pv.run_driver_resilient(exe, scen, timeout=3000, scen_timeout=120)
-    byid = {r["id"]: r for r in recs if r.get("e") in ("Alg", "NSz")}
+    byid = {r["id"]: r for r in recs if r.get("e") in ("Alg", "NSz", "Big")}
     ev = []
     for s in scen:
         c.evaluations += 1
@@ -152,7 +164,7 @@ def replay(path):
     if crashed:
         print("crashed", crashed)
         return 1
-    ev = [r for r in recs if r.get("e") in ("Alg", "NSz")]
+    ev = [r for r in recs if r.get("e") in ("Alg", "NSz", "Big")]
     print(json.dumps(ev)[:1500])
     v = pv.validate_trace("AlgebraTrace", "AlgebraTrace", ev, "C05/replay")
     print("accepted:", v.accepted)
